@@ -377,7 +377,9 @@ def filter_mc_sharemem(filename, step_size, box_size, cores, shape,
             method = 'fork'
         ctx = multiprocessing.get_context(method)
         barrier = ctx.Barrier(parties=len(ymaxs))
-        pool = ctx.Pool(processes=cores, maxtasksperchild=1,
+        # every stripe waits for all the others at the barrier, so they must
+        # all be running at once
+        pool = ctx.Pool(processes=max(cores, len(ymaxs)), maxtasksperchild=1,
                         initializer=init, initargs=(barrier, memory_id))
         try:
             # chunksize=1 ensures that we only send a single task to each
